@@ -21,14 +21,14 @@ func init() {
 			Property: "C07",
 			Rule: "for every script of a family (variables set before and after jumps, visited_count of every node shown in lines, option groups, a command that never completes, tracking: never nodes, a host-populated storer and a storer empty at creation, ends), every path of an original runner up to the save bound, every step of it as save point (Snapshot), optional host write, every continuation of the original up to a bound; " +
 				"every receiving runner (the original itself, or a fresh runner of the same script driven along every path up to a bound: fresh, mid-node, waiting for a choice, waiting for a command, ended; with optional host write), optional RestoreAt of a snapshot naming an unknown node first, then RestoreAt(snapshot), optional second runner restored from the same snapshot and stepped alternately, every continuation path up to a bound, optional second restore of the same snapshot; " +
-				"at most one host write between two steps before the save point; receivers that hold the snapshot's variables under another type with the same display form; HS: snapshots built by the host (every node x variables nil / empty / {x} x visit counts nil / empty / {A:2}) restored into a runner in every state and continued along every path; " +
+				"at most one host write between two steps before the save point; receivers that hold the snapshot's variables under another type with the same display form; HS: snapshots built by the host (every node x variables nil / empty / {x} / five entries one of which holds no value - if that one is refused, nothing may have changed - x visit counts nil / empty / {A:2}) restored into a runner in every state and continued along every path; " +
 				"every snapshot is taken twice and the second value overwritten by the host at once; every restore is given a copy of the snapshot which the host overwrites as soon as RestoreAt has returned (a snapshot is a self-contained value in both directions); " +
 				"oracle on every transition: elements and storer contents equal those of the reference interpreter restarted from its node-entry checkpoint; every snapshot value held is deep-equal to the frozen copy taken when it was made and to the model checkpoint (nil = empty map); a snapshot taken right after the restore equals the restored one; the unknown-node restore fails and leaves the reflective dump of runner and storer unchanged; " +
 				"a case is one (script, original path, save point, receiver state, continuation); non-trivial = the save point is after at least one jump or the receiver is not fresh",
 			StatesMean:  "(script, history of operations) prefixes visited on the real runners; transitions = real Next / Snapshot / RestoreAt calls compared with the model",
 			Assumptions: []string{"small-scope hypothesis on scripts and path lengths", "scripts of this family contain no failing statement and no random function"},
 		},
-		QuickBudget: 120 * time.Second, ThoroughBudget: 14 * time.Minute, CrashIsViolation: true,
+		QuickBudget: 150 * time.Second, ThoroughBudget: 14 * time.Minute, CrashIsViolation: true,
 		Run: runC07,
 	})
 }
@@ -80,6 +80,11 @@ func c07Scripts(withGold bool) []*yc.Program {
 		{Nodes: []*yc.Node{
 			{Title: "A", Body: []*yc.Stmt{setx("=", 0), st("a"), gold("-=", 1), st("a'"), yc.Options(&yc.Option{Line: yc.TextLine("leave"), Body: []*yc.Stmt{yc.Jump("B")}}, &yc.Option{Line: yc.TextLine("end")})}},
 			{Title: "B", Tracking: "always", Body: []*yc.Stmt{st("b", "A", "B"), gold("+=", 10), yc.Command("act"), st("b'", "A", "B"), yc.Jump("A")}},
+		}},
+		// P6: nodes that assign nothing themselves (what the host writes into its storer is all that changes)
+		{Nodes: []*yc.Node{
+			{Title: "A", Body: []*yc.Stmt{yc.Line("a1"), yc.Jump("B")}},
+			{Title: "B", Body: []*yc.Stmt{yc.Line("b1"), yc.Options(&yc.Option{Line: yc.TextLine("back"), Body: []*yc.Stmt{yc.Jump("A")}}, &yc.Option{Line: yc.TextLine("end")})}},
 		}},
 		// P5: a dialogue that ends soon (ended receivers)
 		{Nodes: []*yc.Node{
@@ -614,9 +619,9 @@ func hostSnapshots(ctx *report.Ctx, scripts []*yc.Program, hs *yc.HostSpec, recv
 		si := c.Choose(len(scripts), "script")
 		p := scripts[si]
 		node := p.Nodes[c.Choose(len(p.Nodes), "node")]
-		varsKind := c.Choose(3, "variables") // nil, empty, {x}
+		varsKind := c.Choose(4, "variables") // nil, empty, {x}, several entries one of which holds no value
 		visitsKind := c.Choose(3, "visits")  // nil, empty, {A:2}
-		if node != p.Nodes[0] && varsKind != 2 {
+		if node != p.Nodes[0] && varsKind != 2 && varsKind != 3 {
 			return // only the start nodes of the family set $x before reading it
 		}
 		srcs := yc.Render(p, nil)
@@ -659,6 +664,26 @@ func hostSnapshots(ctx *report.Ctx, scripts []*yc.Program, hs *yc.HostSpec, recv
 		case 2:
 			snap.VisitedNodes = map[string]int{"A": 2}
 			cp.Visits["A"] = 2
+		}
+		if varsKind == 3 {
+			// a corrupt save file: one entry holds no value at all. Whether such a snapshot is refused is not constrained,
+			// but a refused restore changes nothing (like the restore of a snapshot naming an unknown node)
+			snap.Variables = map[string]variable.Value{"a": *variable.NewNumber(1), "b": *variable.NewString("s"), "empty": {}, "c": *variable.NewBoolean(true), "x": *variable.NewNumber(2)}
+			before := dump.Values(x.r.DR, x.st)
+			var rerr error
+			if pv := guard(func() { rerr = x.r.DR.RestoreAt(snap) }); pv != nil {
+				fail("restore-failed", fmt.Sprintf("RestoreAt(snapshot with an entry holding no value) panicked: %v", pv))
+				return
+			}
+			ctx.AddEvals(1, 1)
+			if rerr == nil {
+				ctx.Count("snapshot_with_an_empty_entry_accepted", 1)
+				return
+			}
+			if after := dump.Values(x.r.DR, x.st); after != before {
+				fail("refused-restore-changed-something", "RestoreAt refused a snapshot (one entry holds no value: "+rerr.Error()+") but changed the runner or its storer")
+			}
+			return
 		}
 		cs := &c07Snap{real: snap, cp: cp, frozen: dump.String(snap), from: "the host"}
 		if d := x.restore(cs); d != "" {
